@@ -972,6 +972,10 @@ class BuiltinsMixin(object):
                     return App('classattr', CRef(owner), Const(name),
                                self.snapshot(val, path))
                 return val
+            if name == '__new__':
+                # no user-defined __new__ in the hierarchy: object.__new__
+                return BoundB(App('superext', CRef(ExtClass('object')),
+                                  CRef(ci)), '__new__')
         return App('attr', CRef(ci), Const(name))
 
     def ex_Subscript(self, node, fr, path):
